@@ -67,6 +67,15 @@ def jsonable(x, depth=0):
     return repr(x)[:300]
 
 
+def describe(obj, limit=4000):
+    """str(obj) for a violation record; an object that cannot even be printed (the very thing being reported, sometimes) is
+    described by its type and the error instead of breaking the monitor"""
+    try:
+        return str(obj)[:limit]
+    except Exception as ex:  # noqa: BLE001
+        return f"<{type(obj).__name__} that cannot be printed: {type(ex).__name__}: {str(ex)[:120]}>"
+
+
 def digest(*parts) -> int:
     h = hashlib.blake2b(repr(parts).encode(), digest_size=8).digest()
     return int.from_bytes(h, "big")
